@@ -25,6 +25,8 @@ QUICK_UNITS = [
     "src/Estimation/CalcKriging.cpp", "src/Estimation/CalcKrigingFactors.cpp",
     "src/Estimation/CalcGlobal.cpp", "src/Estimation/CalcImage.cpp", "src/Core/krige.cpp",
     "src/Variogram/Vario.cpp", "src/Variogram/AVario.cpp",
+    "src/Neigh/ANeigh.cpp", "src/Basic/Rotation.cpp", "src/LinearOp/IProjMatrix.cpp", "src/Basic/Grid.cpp",
+    "src/Anamorphosis/AnamEmpirical.cpp", "src/Basic/Indirection.cpp", "src/Skin/Skin.cpp",
 ]
 
 
@@ -625,9 +627,18 @@ def hidden_static_rule(prog, chk, unit_suffix, rule, floor_sites, only=None):
                     yield n, t
             elif n["k"] in ("Call", "MCall", "Construct") and n.get("callee") in byname:
                 yield n, n["callee"]
-            elif n["k"] in ("PMCall", "ICall"):
+            elif n["k"] == "PMCall":
+                # member-pointer call: address-taken methods of the caller's own hierarchy
+                hier = set([f.cls] + prog.bases(f.cls) + prog.derived(f.cls)) if f.cls else set()
                 for t in sorted(pm_targets):
-                    yield n, t
+                    if any(g.cls in hier for g in byname.get(t, [])):
+                        yield n, t
+            elif n["k"] == "ICall":
+                # plain function-pointer call: address-taken free functions with the same number of parameters
+                nargs = len(n.get("c") or []) - 1
+                for t in sorted(pm_targets):
+                    if any((not g.cls) and len(g.params) == nargs for g in byname.get(t, [])):
+                        yield n, t
 
     callers = {}
     for f in funcs:
@@ -728,6 +739,118 @@ def hidden_static_rule(prog, chk, unit_suffix, rule, floor_sites, only=None):
     chk.floor(rule + "-callsites", nsites, floor_sites)
 
 
+# ------------------------------------------------------------------------------------------
+def r10_2d(prog, chk):
+    """who-may-write through the const accessors of the copy-on-write vector: a mutable use of X.getVector() /
+    X.getVectorPtr() needs X to own a private storage at that point: X is a local built in the function, or a detaching
+    member of X (any non-const accessor) was called before on every path"""
+    from e2_deps import _split_sig
+    DETACHING = {"data", "begin", "end", "rbegin", "rend", "front", "back", "operator[]", "at", "fill", "assign", "clear", "push_back",
+                 "subdata", "insert", "remove", "erase", "swap"}
+    n = 0
+    for f in sorted(prog.funcs, key=lambda x: (x.file, x.line)):
+        if f.cfg is None:
+            continue
+        for c in f.calls():
+            cal = c.get("callee") or ""
+            if not (cal.startswith("VectorT<") and cal.split("::")[-1] in ("getVector", "getVectorPtr")):
+                continue
+            cur, par = c, f.parent(c)
+            while par is not None and (par["k"] in ("UnOp", "Cast", "Index") or (par["k"] == "OpCall" and par.get("op") in ("[]", "*"))):
+                cur, par = par, f.parent(par)
+            if par is None:
+                continue
+            mutable = False
+            if par["k"] in ("Call", "MCall", "Construct"):
+                args = call_args(par)
+                types = _split_sig(par.get("sig") or "")
+                readonly_view = par["k"] == "Construct" and "span<const " in (par.get("callee") or "")
+                for i_, a in enumerate(args):
+                    if a is not None and any(y is cur for y in walk(a)) and i_ < len(types):
+                        t = types[i_].strip()
+                        if t.endswith("&") and not t.startswith("const ") and not readonly_view:
+                            mutable = True
+                if par["k"] == "MCall" and call_obj(par) is not None and any(y is cur for y in walk(call_obj(par))) and not par.get("cconst"):
+                    mutable = True
+            elif par["k"] == "Assign" or (par["k"] == "OpCall" and par.get("op") in ("=", "+=", "-=", "*=", "/=")):
+                mutable = any(y is cur for y in walk(par["c"][0]))
+            if not mutable:
+                continue
+            n += 1
+            chk.analysed(f)
+            obj = call_obj(c)
+            ok = False
+            why = ""
+            if obj is not None and obj["k"] == "DeclRefExpr" and obj.get("dk") == "var":
+                # a local: fresh storage if built (not copied) in this function
+                for v in f.walk():
+                    if v["k"] == "VarDecl" and v.get("d") == obj["d"]:
+                        init = (v.get("c") or [None])[0]
+                        ok = init is None or not (init["k"] == "Construct" and init.get("copy"))
+                        why = "local vector built in the function"
+            if not ok and obj is not None:
+                g = CFG(f)
+                oname = show(obj)
+                is_detach = lambda x, oname=oname: x["k"] == "MCall" and not x.get("cconst") and call_obj(x) is not None and \
+                    show(call_obj(x)) == oname and (x.get("callee") or "").split("::")[-1] in DETACHING
+                ok = g.dominated_by(c, is_detach)
+                why = "a detaching accessor of %s is called first" % oname
+            chk.ob("R10.2d", "%s: write through %s.%s() only on a privately owned storage" % (f.name, show(obj), cal.split("::")[-1]),
+                   f.loc(c), ok,
+                   detail=None if ok else "%s() does not detach the copy-on-write storage and the result is written: copies of `%s` made "
+                   "before the call are modified too" % (cal.split("::")[-1], show(obj)),
+                   key="R10.2d|%s|%s" % (f.name, show(obj)))
+    chk.floor("R10.2d", n, 4)
+
+
+# parallel containers (element i of each describes the same item), confirmed by reading; found by the co-modification
+# statistics of the whole program (thorough tier lists the other co-modified pairs as an inventory)
+PARALLEL = {
+    "ACovAnisoList": [{"_covs", "_filtered"}],
+    "AnamEmpirical": [{"_ZDisc", "_YDisc"}],
+    "Indirection": [{"_vecRToA", "_vecAToR"}],
+    "Skin": [{"_address", "_energy"}],
+}
+
+
+def r10_5(prog, chk):
+    import c07
+    n = 0
+    for cls, groups in sorted(PARALLEL.items()):
+        if cls not in prog.classes:
+            raise facts.AnalysisBroken("class %s (parallel containers) not analysed" % cls)
+        n += c07.co_update(prog, chk, cls, groups, "R10.5")
+    chk.floor("R10.5", n, 8)
+
+
+# memoising classes: (memo fields, input fields): a method that rebinds an input must reset the memo
+MEMO = {"ANeigh": ({"_nbghMemo"}, {"_dbin", "_dbout"})}
+
+
+def r10_6(prog, chk):
+    n = 0
+    for cls, (memo, inputs) in sorted(MEMO.items()):
+        eff = _class_effects(prog, cls)
+        if not eff:
+            raise facts.AnalysisBroken("class %s (memo) not analysed" % cls)
+        for name, e in sorted(eff.items()):
+            f = e["f"]
+            if f.kind in ("ctor", "dtor") or f.short.startswith("operator"):
+                continue
+            touched = (e["from_param"] | set(e["fills"])) & inputs
+            if not touched:
+                continue
+            n += 1
+            chk.analysed(f)
+            got = _closure(eff, name, "resets")
+            ok = memo <= got
+            chk.ob("R10.6", "%s: rebinding %s resets the memo %s" % (name, ", ".join(sorted(touched)), ", ".join(sorted(memo))), f.loc(), ok,
+                   detail=None if ok else "the method attaches new data bases but keeps the memorised neighbourhood: the next search for the "
+                   "same target rank returns the neighbours computed for the previous data base",
+                   key="R10.6|%s|%s" % (name, "+".join(sorted(touched))))
+    chk.floor("R10.6", n, 1)
+
+
 def main(tier):
     chk = Check("C10", tier,
                 "Static cache/hidden-state discipline only: pre/post-process pairing of the projected-point cache on "
@@ -736,6 +859,16 @@ def main(tier):
                 "arguments assigned before use. Decides necessary conditions of 'results depend only on the "
                 "arguments'; does NOT decide equality of results with a fresh process.")
     units = [os.path.join(REPO, u) for u in QUICK_UNITS]
+    # R10.2d is a who-may-call rule: every unit that names the const accessors is analysed (a call has to spell the member
+    # name, so the textual pre-filter cannot miss a caller)
+    pat = re.compile(r"getVector(Ptr)?\s*\(")
+    for u in facts.all_units():
+        if u not in units:
+            try:
+                if pat.search(open(u, errors="replace").read()):
+                    units.append(u)
+            except OSError:
+                pass
     if tier == "thorough":
         units = facts.all_units()
     d = extract(units, "C10-" + tier)
@@ -747,6 +880,9 @@ def main(tier):
     r10_2(wprog, chk)
     r10_3(prog, chk)
     hidden_static_rule(prog, chk, 'src/Variogram/Vario.cpp', 'R10.4', 3)
+    r10_2d(prog, chk)
+    r10_5(prog, chk)
+    r10_6(prog, chk)
     return chk.finish()
 
 
